@@ -293,6 +293,12 @@ func (P *Program) scanDirectives(pkg *packages.Package, f *ast.File) error {
 				for _, tgt := range fields[1:] {
 					P.pureMethods[tgt] = true
 				}
+			case "quiet-callback":
+				// //verif:quiet-callback <Struct>.<field> : calls through this function-typed field have no effect
+				// on verified state and return unconstrained values (a trusted, listed assumption)
+				for _, tgt := range fields[1:] {
+					P.pureMethods["callback:"+tgt] = true
+				}
 			case "inline", "opaque", "pure":
 				for _, tgt := range fields[1:] {
 					fn, err := P.FindFunc(pkg, tgt)
